@@ -721,9 +721,18 @@ fn write_project(rng: &mut Rng, dir: &Path) -> Vec<String> {
         let p = dir.join(std::ffi::OsString::from_vec(vec![b'b', b'a', b'd', 0xff, b'.', b'r', b's']));
         std::fs::write(p, "let a = 1;\nlet b = 2;\nlet c = 3;\nlet d = 4;\nlet e = 5;\nlet f = 6;\nlet g = 7;\n").unwrap();
     }
+    {
+        // ~700 lines of small functions: in the warning band of its own rule, large enough for the
+        // split analyser to propose chunks
+        let mut s = String::new();
+        for i in 0..230 {
+            s += &format!("fn f{i}() {{\n    let v = {i};\n}}\n");
+        }
+        std::fs::write(dir.join("src/wide_warn.rs"), s).unwrap();
+    }
     let reason = rng.pick(REASONS).replace('\\', "\\\\").replace('"', "\\\"").replace('\n', "\\n");
     let sreason = rng.pick(REASONS).replace('\\', "\\\\").replace('"', "\\\"").replace('\n', "\\n");
-    let mut cfg = format!("version = \"2\"\n[content]\nmax_lines = 5\nwarn_threshold = 0.5\nextensions = [\"rs\", \"aa\", \"bb\"]\n[[content.rules]]\npattern = \"**/big_*.rs\"\nmax_lines = 7\nreason = \"{reason}\"\n[structure]\nmax_files = 3\n[[structure.rules]]\nscope = \"lib\"\nmax_files = 2\nreason = \"{sreason}\"\n");
+    let mut cfg = format!("version = \"2\"\n[content]\nmax_lines = 5\nwarn_threshold = 0.5\nextensions = [\"rs\", \"aa\", \"bb\"]\n[[content.rules]]\npattern = \"**/big_*.rs\"\nmax_lines = 7\nreason = \"{reason}\"\n[[content.rules]]\npattern = \"**/wide_warn.rs\"\nmax_lines = 1000\nwarn_threshold = 0.5\n[structure]\nmax_files = 3\n[[structure.rules]]\nscope = \"lib\"\nmax_files = 2\nreason = \"{sreason}\"\n");
     if rng.chance(2, 3) {
         cfg += "[languages.zed]\nextensions = [\"aa\", \"q\"]\nsingle_line_comments = [\"#\"]\n[languages.abc]\nextensions = [\"aa\", \"bb\"]\nsingle_line_comments = [\"//\"]\n[languages.mno]\nextensions = [\"bb\"]\nsingle_line_comments = [\";\"]\n";
     }
@@ -949,6 +958,44 @@ fn e2e_case(sink: &mut Sink, rng: &mut Rng, bin: &str, scratch: &str) {
     sink.push(Case { request: "noop".into(), implementation: "-".into(), pred: if problems.is_empty() { "ok".into() } else { format!("FAIL {}", problems.join("; ")) }, tag: format!("e2e/exit{rc0}") });
 }
 
+/// many directories each carrying two structure results (over max_files and over max_dirs):
+/// repeated runs must be byte-identical in every machine format
+fn many_violations_case(sink: &mut Sink, bin: &str, scratch: &str) {
+    if !sink.want() {
+        sink.skip();
+        return;
+    }
+    let dir = PathBuf::from(scratch).join(format!("m{}", sink.n));
+    let _ = std::fs::remove_dir_all(&dir);
+    for d in 0..32 {
+        for f in 0..3 {
+            let p = dir.join(format!("pkg/d{d:02}/f{f}.rs"));
+            std::fs::create_dir_all(p.parent().unwrap()).unwrap();
+            std::fs::write(p, "let a = 1;\n").unwrap();
+        }
+        for sub in 0..3 {
+            let p = dir.join(format!("pkg/d{d:02}/s{sub}/x.rs"));
+            std::fs::create_dir_all(p.parent().unwrap()).unwrap();
+            std::fs::write(p, "let a = 1;\n").unwrap();
+        }
+    }
+    std::fs::write(dir.join(".sloc-guard.toml"), "version = \"2\"\n[content]\nmax_lines = 50\nextensions = [\"rs\"]\n[structure]\nmax_files = 2\nmax_dirs = 2\n[[structure.rules]]\nscope = \"pkg\"\nmax_dirs = 100\n").unwrap();
+    let p = Proj { dir: dir.clone(), bin: bin.to_string() };
+    let mut problems = vec![];
+    for fmt in ["json", "sarif", "markdown", "html", "text"] {
+        let mut outs = BTreeSet::new();
+        for threads in ["1", "2", "8", "4", "16", "3"] {
+            let (_, out, _) = p.run(&["check", "--no-sloc-cache", "--format", fmt], &[("RAYON_NUM_THREADS", threads)]);
+            outs.insert(out);
+        }
+        if outs.len() > 1 {
+            problems.push(format!("--format {fmt} gives {} different outputs over 6 runs of one project with 64 structure violations", outs.len()));
+        }
+    }
+    let _ = std::fs::remove_dir_all(&dir);
+    sink.push(Case { request: "noop".into(), implementation: "-".into(), pred: if problems.is_empty() { "ok".into() } else { format!("FAIL {}", problems.join("; ")) }, tag: "e2e/many-structure-violations".into() });
+}
+
 pub fn run(tier: Tier, seed: u64, out: &str) {
     let mut sink = Sink::create(out);
     let mut rng = Rng::new(seed ^ 0xC20);
@@ -967,6 +1014,7 @@ pub fn run(tier: Tier, seed: u64, out: &str) {
         owner_cases(&mut sink, &mut r);
     }
     if let Ok(bin) = std::env::var("SGVERIF_BIN") {
+        many_violations_case(&mut sink, &bin, &scratch);
         for _ in 0..tier.scale(8, 60) {
             let mut r = rng.fork();
             e2e_case(&mut sink, &mut r, &bin, &scratch);
